@@ -124,6 +124,10 @@ def unary_ops(v, seed):
         ops.append((name, [t[:1] or 'a'], {}, True))
         ops.append((name, [t[-1:] or 'a'], {}, True))
         ops.append((name, [], {}, True))
+        ops.append((name, [''], {}, True))
+    ops.append(('removeprefix', [''], {}, True))
+    ops.append(('replace', ['', 'Q'], {}, True))
+    ops.append(('replace', [t[:1] or 'a', t[:1] or 'a'], {}, True))
     ops.append(('removeprefix', [t[:1]], {}, True))
     ops.append(('removeprefix', ['zz'], {}, True))
     ops.append(('removesuffix', [t[-1:]], {}, True))
